@@ -38,6 +38,7 @@ import (
 	"sync/atomic"
 	"time"
 
+	"github.com/krotik/ecal/config"
 	"github.com/krotik/ecal/interpreter"
 	"github.com/krotik/ecal/parser"
 	"github.com/krotik/ecal/util"
@@ -154,6 +155,22 @@ func (d *recDebugger) VisitStepOutState(node *parser.ASTNode, vs parser.Scope, t
 		d.note(tid, "x"+strconv.Itoa(c15Pos(node)))
 	}
 	return d.ECALDebugger.VisitStepOutState(node, vs, tid, soErr)
+}
+
+func (d *recDebugger) RecordThreadFinished(tid uint64) {
+	d.note(tid, "f")
+	d.ECALDebugger.RecordThreadFinished(tid)
+}
+
+func (d *recDebugger) tids() []uint64 {
+	d.mu.Lock()
+	defer d.mu.Unlock()
+	var out []uint64
+	for t := range d.traces {
+		out = append(out, t)
+	}
+	sort.Slice(out, func(i, j int) bool { return out[i] < out[j] })
+	return out
 }
 
 func (d *recDebugger) trace(tid uint64) []string {
@@ -385,6 +402,7 @@ type c15Run struct {
 	payload string
 	life    string // life-cycle mode (L cases): src = library, mainSrc = main program
 	mainSrc string
+	workers int // > 0: sink program, the processor runs with that many pool workers
 }
 
 const c15Source = "t"
@@ -429,6 +447,10 @@ var c15Cmds = map[byte]string{'R': "resume", 'I': "stepin", 'O': "stepover", 'U'
 // round of suspensions with StopThreads once all threads are reported suspended.
 func c15Debugged(c *c15Run, kill bool) (threads []*c15Thread, lg *memLog, rec *recDebugger, hang bool) {
 	lg = &memLog{}
+	if c.workers > 0 {
+		config.Config[config.WorkerCount] = c.workers
+		defer func() { config.Config[config.WorkerCount] = 4 }()
+	}
 	erp := interpreter.NewECALRuntimeProvider("t", nil, lg)
 	defer erp.Cron.Stop()
 	sched := &c15Sched{mode: c.timing, rng: NewRand(c.seed), isTid: map[interface{}]uint64{},
@@ -489,6 +511,10 @@ func c15Debugged(c *c15Run, kill bool) (threads []*c15Thread, lg *memLog, rec *r
 					func() { erp.Debugger = rec; rec.setOn(true) },
 					func() { erp.Debugger = nil; rec.setOn(false) },
 					func(a *parser.ASTNode) { c15WrapLiterals(a, rec) })
+			} else if c.workers > 0 {
+				// addEvent starts the processor (rules can only be added while it is stopped)
+				t.res, t.err = ast.Runtime.Eval(t.vs, make(map[string]interface{}), t.tid)
+				erp.Processor.Finish() // waits until every event has been processed
 			} else {
 				t.res, t.err = ast.Runtime.Eval(t.vs, make(map[string]interface{}), t.tid)
 			}
@@ -537,6 +563,7 @@ func c15Debugged(c *c15Run, kill bool) (threads []*c15Thread, lg *memLog, rec *r
 	last := time.Now()
 	ctlRng := NewRand(c.seed + 77)
 	stopped := false
+	var workersSeen []*c15Thread
 	var stuckSince time.Time
 	spins := 0
 	idle := func() {
@@ -610,6 +637,14 @@ func c15Debugged(c *c15Run, kill bool) (threads []*c15Thread, lg *memLog, rec *r
 		spins = 0
 		for _, id := range suspended {
 			t := byTid[id]
+			if t == nil && c.workers > 0 {
+				// a pool worker: known to the debugger only
+				wt, _ := strconv.ParseUint(id, 10, 64)
+				t = &c15Thread{tid: wt, ended: make(chan struct{})}
+				close(t.ended)
+				byTid[id] = t
+				workersSeen = append(workersSeen, t)
+			}
 			if t == nil {
 				continue
 			}
@@ -642,6 +677,7 @@ func c15Debugged(c *c15Run, kill bool) (threads []*c15Thread, lg *memLog, rec *r
 			last = time.Now()
 		}
 	}
+	threads = append(threads, workersSeen...)
 	return threads, lg, rec, hang
 }
 
@@ -891,6 +927,97 @@ func c15RunZ(f []string, payload string) string {
 			runtime.Gosched()
 		}
 	}
+}
+
+// c15SinkProgram: a sink with the given body lines, `events` events of its kind.
+func c15SinkProgram(body []string, events int) string {
+	lines := []string{"func h(a) {", "    return a * 2", "}", "sink s1", "    kindmatch [ \"ev.a\" ],", "    {"}
+	for _, b := range body {
+		lines = append(lines, "        "+b)
+	}
+	lines = append(lines, "    }", "for i in range(1, "+strconv.Itoa(events)+") {", "    addEvent(\"e\", \"ev.a\", {\"n\": i})", "}", "events := "+strconv.Itoa(events))
+	return strings.Join(lines, "\n")
+}
+
+// c15SinkPlain runs a sink program without debugger (reference) or with the recording wrapper.
+func c15SinkRun(src string, workers int, rec *recDebugger) (string, []string) {
+	config.Config[config.WorkerCount] = workers
+	defer func() { config.Config[config.WorkerCount] = 4 }()
+	lg := &memLog{}
+	erp := interpreter.NewECALRuntimeProvider("t", nil, lg)
+	defer erp.Cron.Stop()
+	if rec != nil {
+		erp.Debugger = rec
+	}
+	vs := newGlobalScope()
+	ast, err := parser.ParseWithRuntime(c15Source, src, erp)
+	if err == nil {
+		err = ast.Runtime.Validate()
+	}
+	if err != nil {
+		return c15Outcome(nil, err, vs), nil
+	}
+	res, err := ast.Runtime.Eval(vs, make(map[string]interface{}), erp.NewThreadID())
+	erp.Processor.Finish()
+	logs := append([]string(nil), lg.lines...)
+	sort.Strings(logs)
+	return c15Outcome(res, err, vs), logs
+}
+
+// c15SinkBodyTrace: the visit trace of ONE execution of the sink body (1 worker, 1 event).
+func c15SinkBodyTrace(body []string) []string {
+	dbg := interpreter.NewECALDebugger(newGlobalScope())
+	dbg.BreakOnError(false)
+	rec := newRecDebugger(dbg)
+	c15SinkRun(c15SinkProgram(body, 1), 1, rec)
+	tids := rec.tids()
+	if len(tids) < 2 {
+		return nil
+	}
+	// the main thread has the lowest id; the worker's trace is the sink body
+	var out []string
+	for _, e := range rec.trace(tids[len(tids)-1]) {
+		if e != "f" {
+			out = append(out, e)
+		}
+	}
+	return out
+}
+
+func c15RunS(f []string, payload string) string {
+	workers, _ := strconv.Atoi(f[0])
+	c := &c15Run{src: unhx(f[5]), n: 1, workers: workers, bpops: c15List(f[2], ","), script: c15List(f[3], ","),
+		timing: "poll", seed: 1, payload: payload}
+	plain, plainLog := c15SinkRun(c.src, workers, nil)
+	if os.Getenv("C15_DEBUG") != "" {
+		fmt.Fprintln(os.Stderr, "plain:", plain, plainLog)
+	}
+	threads, lg, rec, hang := c15Debugged(c, false)
+	same := 1
+	got := append([]string(nil), lg.lines...)
+	sort.Strings(got)
+	t := threads[0]
+	if !hang && (!t.normal || c15Outcome(t.res, t.err, t.vs) != plain || strings.Join(plainLog, "\n") != strings.Join(got, "\n")) {
+		same = 0
+	}
+	total := 0
+	for _, th := range threads {
+		total += len(th.susp)
+	}
+	// the per-thread traces (visits, `!` = reported suspension, `f` = thread finished) for mode vt
+	for _, tid := range rec.tids() {
+		c15Side(&c15VtFile, "c15-vt", "00 "+f[2]+" "+f[3]+" "+c15TraceStr(rec.trace(tid))+"\t"+payload)
+		CountRun("vt.traces")
+	}
+	CountRun("S")
+	r := fmt.Sprintf("same=%d susp=%d", same, total)
+	if f[3] != "-" {
+		r = fmt.Sprintf("same=%d susp=any", same)
+	}
+	if hang {
+		r = "HANG-suspended-thread-not-released " + r
+	}
+	return r
 }
 
 func c15Lines(xs []int) string {
@@ -1496,6 +1623,34 @@ func init() {
 					g.Emit(fmt.Sprintf("D 1 00 %s %s %s 1 %s %s", d[1], d[2], timing, c15TraceStr(trace), hx(d[0])))
 				}
 			}
+			// sink programs on pool workers: more events than workers, break points in one-line and
+			// multi-line sink bodies (body lines start at line 7)
+			bodies := [][]string{
+				{"log(\"s\", event.state.n)"},
+				{"x := event.state.n", "log(\"s\", x)"},
+				{"x := h(event.state.n)", "y := x + 1", "log(\"s\", y)"},
+				{"x := event.state.n", "if x > 2 {", "    x := h(x)", "}", "log(\"s\", x)"},
+			}
+			for bi, body := range bodies {
+				bt := c15SinkBodyTrace(body)
+				for w := 1; w <= 4; w++ {
+					for _, ev := range []int{1, w + 2, 12} {
+						if !g.Thorough() && (w+bi+ev)%2 == 1 {
+							continue
+						}
+						bp := "s7"
+						if len(body) > 1 && (w+ev)%2 == 0 {
+							bp = "s7,s" + strconv.Itoa(6+len(body))
+						}
+						script := "-"
+						if (w+ev+bi)%5 == 0 {
+							script = []string{"I,R,O", "O,U,R,I", "I,I,I"}[(w+bi)%3]
+						}
+						g.Count("S.workers." + strconv.Itoa(w))
+						g.Emit(fmt.Sprintf("S %d %d %s %s %s %s", w, ev, bp, script, c15TraceStr(bt), hx(c15SinkProgram(body, ev))))
+					}
+				}
+			}
 			// concurrent controllers: break point edits / StopThreads WHILE n >= 4 threads run in
 			// tight loops (a process death is the result CRASH)
 			loops := []string{
@@ -1607,6 +1762,8 @@ func init() {
 				return c15RunL(f[1:], payload)
 			case f[0] == "Z" && len(f) == 4:
 				return c15RunZ(f[1:], payload)
+			case f[0] == "S" && len(f) == 7:
+				return c15RunS(f[1:], payload)
 			}
 			return "bad-payload"
 		},
